@@ -708,85 +708,7 @@ def check_jsonld_reader(cx: Cx, ob: Ob) -> None:
         ob.violate(m.qualname, m.where, "from_jsonld never takes expanded term definitions with '@prefix': true", detail="no-dict-terms")
 
 
-def _projection(cx: Cx, key):
-    """What a key function selects: 'id', ('idx', i), ('idxs', (i, j, ..)) or None (unknown)."""
-    if key is None or is_const(key, None):
-        return "id"
-
-    def body_proj(body, var):
-        if body == var:
-            return "id"
-        if op(body) == "item" and body[1] == var and is_const(body[2]) and isinstance(body[2][1], int):
-            return ("idx", body[2][1])
-        if op(body) == "tuple":
-            sub = [body_proj(x, var) for x in body[1]]
-            if all(isinstance(x, tuple) and x[0] == "idx" for x in sub):
-                return ("idxs", tuple(x[1] for x in sub))
-        return None
-
-    if op(key) == "lambda" and len(key[1]) == 1:
-        return body_proj(key[2], ("lv", key[1][0]))
-    if op(key) == "call" and op(key[1]) == "ext" and key[1][1] == "operator.itemgetter" and key[2] and all(is_const(a) and isinstance(a[1], int) for a in key[2]):
-        return ("idx", key[2][0][1]) if len(key[2]) == 1 else ("idxs", tuple(a[1] for a in key[2]))
-    if op(key) == "func" and key[1] in cx.model.functions:
-        f = cx.model.functions[key[1]]
-        ps = [p for p in f.params]
-        rets = cx.summary(f).returns()
-        if len(ps) == 1 and len(rets) == 1:
-            return body_proj(rets[0][0], ("param", ps[0].name))
-    return None
-
-
-def _first_component(proj):
-    if proj == "id":
-        return 0  # tuples compare lexicographically: sorted by the whole item groups by component 0
-    if isinstance(proj, tuple) and proj[0] == "idx":
-        return proj[1]
-    if isinstance(proj, tuple) and proj[0] == "idxs" and proj[1]:
-        return proj[1][0]
-    return None
-
-
-def groupby_sortedness(cx: Cx, ob: Ob) -> None:
-    """itertools.groupby only merges ADJACENT equal keys: its input must be sorted by the grouping key."""
-    names = [f"{API}.upgrade_prefix_map"] + [m.qualname for m in cx.model.cls(CONV, ob.id).methods.values() if m.name.startswith("from_")]
-    for q in names:
-        fn = cx.model.functions.get(q)
-        if fn is None:
-            continue
-        s = cx.summary(fn, ob.id)
-        for t, ev, ctx in s.all_terms():
-            for c in subterms(t):
-                if not (op(c) == "call" and op(c[1]) == "ext" and c[1][1] == "itertools.groupby" and c[2]):
-                    continue
-                key = dict(c[3]).get("key") or (c[2][1] if len(c[2]) > 1 else None)
-                src = c[2][0]
-                ob.site(f"{where(fn, ev.line)} {fn.qualname}", f"groupby(key={show(key)[:40] if key else None})")
-                if not (op(src) == "call" and src[1] == ("builtin", "sorted")):
-                    ob.undecide(f"groupby input `{show(src)[:50]}` is not a sorted(...) call: adjacency of equal keys not established")
-                    continue
-                skey = dict(src[3]).get("key")
-                if skey == key:
-                    continue
-                gp, sp = _projection(cx, key), _projection(cx, skey)
-                if gp is None or sp is None:
-                    ob.undecide(f"groupby key `{show(key)[:40] if key else None}` / sort key `{show(skey)[:40] if skey else None}` not recognised as projections")
-                    continue
-                if gp == "id":
-                    g_idx = None
-                    ok = sp == "id"
-                elif gp[0] == "idx":
-                    ok = _first_component(sp) == gp[1]
-                else:
-                    ok = sp == gp
-                if not ok:
-                    ob.violate(
-                        fn.qualname,
-                        where(fn, ev.line),
-                        f"itertools.groupby groups by {gp} but its input is sorted by {sp}: equal keys that are not adjacent form several groups, i.e. several records claiming the same URI prefix",
-                        witness="{'a': 'U', 'b': 'V', 'c': 'U'} sorted by item is (a,U),(b,V),(c,U): two groups for U",
-                        detail="groupby-unsorted",
-                    )
+from ..rules import _first_component, _projection, groupby_sortedness  # noqa: E402,F401
 
 
 @obligation("C13-X8", "the Record model stores prefixes and URI prefixes verbatim: no pydantic string transformation (strip / case folding / length limits) in its model_config or field declarations", floor=1)
